@@ -8,6 +8,8 @@ import copy, os, pickle
 import numpy as np
 from vf import core
 from vf.monitors import c13_watch as W
+from vf.monitors import c13_kinds as K
+from vf.monitors import c13_siblings as SIB
 
 RULE = ("one evaluation = one (step, observed object) pair of a history: after a step addressed to registry i (or to nobody: reads, "
         "round trips, mixed-registry arithmetic, refused edits) the observation of another object - a custom registry's raw table "
@@ -16,10 +18,18 @@ RULE = ("one evaluation = one (step, observed object) pair of a history: after a
         "registry's table+resolution (D2); the units/constants exported by the unyt namespace (D3: binding, scale, dims, offset, registry); "
         "60 built-in conversions bit for bit (D4); the built-in unit systems (D5) - must equal its observation before the step; plus: "
         "result registry of binary operations is the left operand's, modify/remove through every handle on the default registry raise, "
-        "a freshly created independent registry shares no table object with any other, units resolved through a registry are bound to it, "
+        "a freshly created independent registry shares no table object with any other (also: the registries of several objects restored together from one "
+        "pickle / one deepcopy / the same bytes or JSON text are one registry object or share nothing, and an edit through one leaves the others "
+        "unchanged), units resolved through a registry are bound to it, "
         "an edit that changed a registry's table renewed its unit_system_id (the hash that separates registries in the shared memo tables), "
         "namespaces made by add_symbols/add_constants are bound to the given registry, at the end the default registry resolves the full probe "
-        "set like a cold twin built from its table (custom registries: noted). distinct = (step kind, observed object class/provenance, relation to the addressed registry)")
+        "set like a cold twin built from its table (custom registries: noted). Unit-kind matrix (vf/monitors/c13_kinds.py): at one or more points of every history and at "
+        "its end, for an ordered pair of distinct registries, operands of every unit kind (bare dimensionless, bare quotient x/y, symbol `dimensionless`, scaled "
+        "dimensionless, base, atomic, prefixed, compound, user symbol, user compound, edited built-in, angle, offset, logarithmic) in BOTH positions of "
+        "sampled operation forms (operator, np.ufunc, reflected dunder, in-place, out= left/right/fresh/ndarray, matmul, Unit*Unit, Unit/Unit, commensurable "
+        "add/subtract/extremum, comparisons): result registry is the left operand's, and converting the result to a unit string made of a symbol the two "
+        "registries resolve differently gives what the left registry itself resolves. "
+        "distinct = (step kind, observed object class/provenance, relation to the addressed registry) and (family, left kind, right kind)")
 ASSUMPTIONS = (
     "the oracle is a snapshot contract over time (observation before == observation after for everything a step was not addressed to); no "
     "reference values are needed; the SI prefix factors used to recognise lookup-derived entries come from vf/ref/defs.py",
@@ -45,6 +55,17 @@ ASSUMPTIONS = (
     "an exported unit whose .registry is a shallow alias of the default registry (same table object, same class) counts as unchanged",
     "exceptions raised by a step (unknown symbol, refused operation) are recorded as notes; a failed call must leave everything it was "
     "not addressed to unchanged just the same",
+    "unit-kind matrix: out= is a target, not an operand - with out= being a copy of the right operand or a buffer of any registry the result "
+    "still has to live in the left operand's registry; products/quotients of a Unit object and data (Unit*quantity, quantity/Unit, ...) have "
+    "one label and one data operand: their result registry is noted (label-form-result-registry:*), not judged; comparisons return plain "
+    "booleans: only the no-write part applies to them",
+    "sibling registries: objects of one registry restored by ONE call (one pickle of a container, one deepcopy of a list) may come back bound to "
+    "one registry object (they shared one before: noted); restorations by SEPARATE calls (same bytes or JSON text loaded twice, deep copies "
+    "taken one after the other) are independent creations: one registry object handed out twice, or distinct objects sharing a table or "
+    "string cache, is a violation (same reading as for a single creation against the live registries)",
+    "unit-kind matrix, behavioural oracle: the expectation for result.to_value(T) is result_value * result_unit.base_value / (scale the LEFT "
+    "registry itself resolves T to now); it is evaluated only where the left registry resolves T without offset and the right registry "
+    "resolves T differently or not at all (otherwise nothing distinguishes the two registries: counted as skipped)",
 )
 MIN_EVALS = 5000
 TIMEOUT = 1500
@@ -87,10 +108,16 @@ STEPS = [
     ("mixed/modify-with-foreign-quantity", 2),
     ("default/modify-refused", 4), ("default/remove-refused", 4), ("default/define_unit", 1), ("default/add", 1),
 ]
-KINDS = [k for k, _ in STEPS if k != "create"] + ["create/" + p for p, _ in PROVS] + ["final/bound", "final/twin"]
+KINDS = [k for k, _ in STEPS if k != "create"] + ["create/" + p for p, _ in PROVS] + ["final/bound", "final/twin", "mixed/kind-matrix"] + ["create-siblings/" + x for x in SIB.ROUTES]
 SUBMONITORS = ["mon:foreign-registry-unchanged", "mon:D1-default_unit_symbol_lut", "mon:D2-default-registry", "mon:D3-namespace",
                "mon:D4-conversions", "mon:D5-unit-systems", "mon:result-registry-left", "mon:default-refusal", "mon:create-no-shared-table",
-               "mon:resolved-unit-bound", "mon:namespace-bound", "mon:final-twin", "mon:recorder-armed", "mon:content-id-renewed"]
+               "mon:resolved-unit-bound", "mon:namespace-bound", "mon:final-twin", "mon:recorder-armed", "mon:content-id-renewed",
+               "mon:kind-result-registry-left", "mon:kind-result-resolves-left-symbol", "mon:siblings-no-shared-table", "mon:siblings-edit-isolated"]
+# unit-kind matrix: every kind must have been judged in both operand positions, every family at least once, and the bare kinds in the
+# left position of the multiplicative families and of Unit*Unit (a run that stops reaching them is INCONCLUSIVE, not held)
+KIND_COUNTERS = (["kind:left:" + k for k in K.KINDS] + ["kind:right:" + k for k in K.KINDS] + ["kind:family:" + f for f in K.FAMILIES]
+                 + ["kind:bare-left:" + f for f in ("multiply", "divide", "add-like", "subtract", "unit-mul", "unit-div")]
+                 + ["kind:mixed-with-default-registry:left", "kind:mixed-with-default-registry:right", "kind:custom-custom"])
 
 
 def batches(tier, seed):
@@ -242,6 +269,7 @@ class History:
         self.log = []
         self.observed = [s for s in BASE_PROBES if r.random() < 0.7]
         self.kind = "init"
+        self.r2 = None          # own stream of the unit-kind matrix steps (set by the worker)
 
     # ------------------------------------------------------------ bookkeeping
     def everyone(self):
@@ -558,7 +586,10 @@ class History:
                     n += 1
         return n
 
-    def check_left(self, kind, res, left_reg, form, right_reg=None, redo=None, left_unit=None, right_unit=None):
+    FAMILY.update(K.FAMILY)
+
+    def check_left(self, kind, res, left_reg, form, right_reg=None, redo=None, left_unit=None, right_unit=None, left_class=None,
+                   right_class=None, cell=None, extra_desc=""):
         """the unit of the result of a binary (or unary) operation lives in the left operand's registry"""
         rec = self.rec
         u = getattr(res, "units", res if hasattr(res, "is_Unit") else None)
@@ -570,7 +601,7 @@ class History:
         if same_reg(u.registry, left_reg):
             if u.registry is not left_reg:
                 rec.note("result-in-shallow-alias-of-left-registry:" + kind)
-            rec.ok((kind, form, "result-registry-is-left"))
+            rec.ok(cell or (kind, form, "result-registry-is-left"))
             return True
         other = self.whose(u.registry)
         mixed = right_reg is not None and not same_reg(right_reg, left_reg)
@@ -589,7 +620,11 @@ class History:
             key = "C13:ufunc:result-registry-not-left:memoised-unit-rule"
             rel = mech
         else:
-            if mixed and same_reg(u.registry, right_reg):
+            if mixed and same_reg(u.registry, right_reg) and left_class == "bare" and self.n_factors(right_unit) < 2:
+                # the bare dimensionless unit times/over a single factor: cancelling has no pair of factors to look up, so the
+                # 'left registry lacks a symbol of the right operand' fall-back of the unit rules cannot be the mechanism
+                rel = "right-operand"
+            elif mixed and same_reg(u.registry, right_reg):
                 W.ENABLED[0] = False
                 syms = (set(u.expr.free_symbols) | set(getattr(getattr(right_unit, "expr", None), "free_symbols", ()))
                         | set(getattr(getattr(left_unit, "expr", None), "free_symbols", ())))
@@ -600,10 +635,26 @@ class History:
                 rel = "default-registry" if u.registry is self.D.reg else "foreign-registry"
             if left_unit is not None and getattr(left_unit, "base_offset", 0.0):
                 rel += ":offset-unit"
+            if left_class == "bare" and "left-lacks-symbol" not in rel:
+                rel += ":left-bare-dimensionless"
+            elif right_class == "bare" and "left-lacks-symbol" not in rel:
+                rel += ":right-bare-dimensionless"
             key = "C13:%s/%s:result-registry-not-left:%s" % ("unit-op" if fam.startswith("unit-") else "ufunc", fam, rel)
-        rec.violation(key, "%s (%s): the result's unit %s is bound to %s (%s), not to the left operand's registry"
-                      % (kind, form, u, other, rel), self.case(form=form, result_units=str(u)))
+        rec.violation(key, "%s (%s): the result's unit %s is bound to %s (%s), not to the left operand's registry%s"
+                      % (kind, form, u, other, rel, extra_desc), self.case(form=form, result_units=str(u)))
         return False
+
+    @staticmethod
+    def n_factors(unit):
+        """number of factors (powers expanded) of a unit expression: cancelling looks symbols up only for pairs of factors"""
+        try:
+            n = 0
+            for b, e in getattr(unit, "expr", unit).as_powers_dict().items():
+                if not b.is_Number:
+                    n += max(1, int(abs(e)) + (0 if e == int(e) else 1))
+            return n
+        except Exception:
+            return 2
 
     @staticmethod
     def prefixed_in(sym, table):
@@ -1489,6 +1540,184 @@ class History:
         out = self._edit(sa, lambda reg: reg.modify(sym, b), "modify(%s, quantity of %s)" % (sym, sb.idx))
         return out
 
+    # ---- unit-kind matrix over an ordered pair of distinct registries (vf/monitors/c13_kinds.py)
+    def pick_pair(self, r):
+        ev = self.everyone()
+        pairs = [(a, b) for a in ev for b in ev if a is not b and self.root(a) is not self.root(b) and a.reg.lut is not b.reg.lut]
+        return r.choice(pairs) if pairs else (None, None)
+
+    def kind_operands(self, s, r, side):
+        names = set(s.custom) | (set(self.C.ns_allowed) if s.is_default else set())
+        custom = sorted(k for k in names if k in s.reg.lut)
+        return custom, K.build_operands(self.unyt, s.reg, custom, self.C.pristine_sym, r, self.rec.note, side)
+
+    def kind_matrix_step(self, r):
+        """run as a step of its own (own random stream, so that the histories drawn from the main stream stay what they were)"""
+        kind = "mixed/kind-matrix"
+        self.kind = kind
+        self.rec.reach(kind)
+        self.log.append(kind + " (running)")
+        out = self.s_mixed_kind_matrix(r) or {}
+        self.log[-1] = "%s %s" % (kind, out.get("detail", ""))
+        self.after_step(kind, addressed=())
+
+    def siblings_step(self, r):
+        """objects of one registry restored together (vf/monitors/c13_siblings.py); a step of its own on the second random stream"""
+        self.log.append("create-siblings (running)")
+        out = SIB.run(self, r) or {}
+        self.log[-1] = "%s %s" % (self.kind, out.get("detail", ""))
+        self.after_step(self.kind, addressed=())
+
+    def s_mixed_kind_matrix(self, r):
+        rec, U = self.rec, self.unyt
+        sa, sb = self.pick_pair(r)
+        if sa is None:
+            rec.note("kind-matrix:no-pair-of-distinct-registries")
+            return {"detail": "no pair of distinct registries"}
+        try:
+            customL, L = self.kind_operands(sa, r, "L")
+            customR, R = self.kind_operands(sb, r, "R")
+        except Exception as e:
+            self.note_exc(e)
+            return {"detail": "operands raised %s" % type(e).__name__}
+        rec.count("kind:mixed-with-default-registry:left" if sa.is_default else "kind:mixed-with-default-registry:right" if sb.is_default else "kind:custom-custom")
+        own = K.distinguishing_symbols(sa.reg.lut, sb.reg.lut, customL + BUILTIN_EDIT)
+        ctx = {"sa": sa, "sb": sb, "own": own, "tcache": {}, "n": 0, "r": r}
+        nm = 3 if self.tier == "quick" else 5
+        na = 2 if self.tier == "quick" else 3
+        shapes = [("q", "q"), ("a", "a"), ("a", "q"), ("q", "a")]
+        for lk, lo in L.items():
+            for rk, ro in R.items():
+                for form in r.sample(K.MULT_FORMS, nm):
+                    ls, rs = ("a", "a") if form == "matmul" else r.choice(shapes)
+                    self.judge_kind(ctx, form, "mult", lo, ro, getattr(lo, ls), getattr(ro, rs), ls + rs)
+                self.judge_kind(ctx, "unit-mul", "unit", lo, ro, lo.u, ro.u, "uu")
+                if r.random() < 0.5:
+                    self.judge_kind(ctx, "unit-div", "unit", lo, ro, lo.u, ro.u, "uu")
+                if r.random() < 0.25:
+                    form = r.choice(K.LABEL_FORMS)
+                    ds = r.choice("qa")
+                    a, b = (lo.u, getattr(ro, ds)) if form.startswith("unit-") else (getattr(lo, ds), ro.u)
+                    self.judge_kind(ctx, form, "label", lo, ro, a, b, "label")
+                try:
+                    comm = lo.u.dimensions == ro.u.dimensions
+                except Exception:
+                    comm = False
+                if comm:
+                    for form in r.sample(K.ADD_FORMS, na):
+                        ls, rs = r.choice(shapes)
+                        self.judge_kind(ctx, form, "add", lo, ro, getattr(lo, ls), getattr(ro, rs), ls + rs)
+                    form = r.choice(K.CMP_FORMS)
+                    ls, rs = r.choice(shapes)
+                    self.judge_kind(ctx, form, "cmp", lo, ro, getattr(lo, ls), getattr(ro, rs), ls + rs)
+        return {"detail": "%d operations: %d kinds of %s [%s] x %d kinds of %s [%s], distinguishing symbols %s"
+                % (ctx["n"], len(L), sa.idx, sa.prov, len(R), sb.idx, sb.prov, own)}
+
+    def judge_kind(self, ctx, form, group, lo, ro, a, b, shapes):
+        rec, U = self.rec, self.unyt
+        sa, sb = ctx["sa"], ctx["sb"]
+        kind = "mixed/kind-matrix"
+        fam = K.FAMILY.get(form, form)
+        try:
+            res = K.apply_form(U, form, a, b)
+        except Exception as e:
+            rec.note("exc:%s:%s:%s" % (kind, fam, type(e).__name__))
+            return
+        ctx["n"] += 1
+        if group == "label":
+            u = getattr(res, "units", None)
+            if u is not None:
+                rec.note("label-form-result-registry:%s:%s" % (form, "left" if same_reg(u.registry, sa.reg) else "right" if same_reg(u.registry, sb.reg) else "other"))
+            return
+        rec.count("kind:family:" + fam)
+        if group == "cmp":
+            rec.count("kind:left:" + lo.kind)       # evaluated; comparisons have no unit: only the no-write part applies
+            rec.count("kind:right:" + ro.kind)
+            return
+        u = res if hasattr(res, "is_Unit") else getattr(res, "units", None)
+        if u is None or not hasattr(u, "registry"):
+            rec.note("no-unit-result:%s:%s" % (kind, form))
+            return
+        rec.count("mon:kind-result-registry-left")
+        rec.count("kind:left:" + lo.kind)
+        rec.count("kind:right:" + ro.kind)
+        lbare, rbare = lo.kind in K.BARE, ro.kind in K.BARE
+        if lbare:
+            rec.count("kind:bare-left:" + fam)
+        # the behavioural observable costs two parses per new dimension and a conversion: always with a bare left operand,
+        # else for a share of the operations
+        beh = self.kind_behaviour(ctx, res, u) if (lbare or ctx["r"].random() < 0.4) else None
+        desc = ""
+        if beh is not None and beh[0] != "ok":
+            desc = "; consequence: result.to_value(%r) %s (registry of the left operand resolves %r to scale %r)" % (beh[1], beh[2], beh[1], beh[3])
+        what = " [left %s %r (%s), right %s %r (%s)]" % (lo.kind, lo.spell, shapes[:1], ro.kind, ro.spell, shapes[1:])
+        ok = self.check_left(kind, res, sa.reg, form, sb.reg, redo=lambda: K.apply_form(U, form, a, b),
+                             left_unit=getattr(a, "units", a), right_unit=getattr(b, "units", b),
+                             left_class="bare" if lbare else None, right_class="bare" if rbare else None,
+                             cell=(kind, fam, lo.kind, ro.kind), extra_desc=what + desc)
+        if beh is None:
+            return
+        if beh[0] == "ok":
+            rec.ok((kind, "resolves-left-symbol", fam, lo.kind))
+        elif ok:
+            rec.violation("C13:%s/%s:result-does-not-resolve-left-symbol:%s%s" % ("unit-op" if fam.startswith("unit-") else "ufunc", fam, beh[0],
+                                                                                  ":left-bare-dimensionless" if lbare else ""),
+                          "%s (%s)%s: the result is bound to the left operand's registry, yet result.to_value(%r) %s; the left registry resolves %r to scale %r"
+                          % (kind, form, what, beh[1], beh[2], beh[1], beh[3]), self.case(form=form, result_units=str(u)))
+
+    def kind_behaviour(self, ctx, res, u):
+        """later conversions of the result resolve symbols as the LEFT registry does: None (not evaluable) or
+        (status, target string, what happened, scale the left registry gives the target)"""
+        rec, U = self.rec, self.unyt
+        sa, sb, own = ctx["sa"], ctx["sb"], ctx["own"]
+        try:
+            if not own or u.base_offset:
+                rec.count("kind:behaviour-skipped")
+                return None
+            # a result that carries a symbol of the right operand which the left registry cannot resolve is a consequence of
+            # 'use the left registry' itself: whatever re-reads its expression there fails; nothing to judge
+            known = ctx.setdefault("known", {})
+            for a in u.expr.free_symbols:
+                k = known.get(a)
+                if k is None:
+                    k = known[a] = W.resolve(U, sa.reg, str(a))[0] != "EXC"
+                if not k:
+                    rec.count("kind:behaviour-skipped")
+                    return None
+            dims = u.dimensions
+            ent = ctx["tcache"].get(dims)
+            if ent is None:
+                ent = False
+                for sym in own:
+                    T = K.target_string(U, dims, sym, sa.reg.lut[sym][1])
+                    if T is None:
+                        continue
+                    tl, tr = W.resolve(U, sa.reg, T), W.resolve(U, sb.reg, T)
+                    if tl[0] == "EXC" or tl[2] != 0.0 or not tl[0] or W.res_equal(tl, tr):
+                        continue
+                    if tl[1] != dims:
+                        continue        # a base symbol was itself redefined with other dimensions in the left registry: T is not commensurable
+                    ent = (T, tl[0])
+                    break
+                ctx["tcache"][dims] = ent
+            if not ent:
+                rec.count("kind:behaviour-skipped")
+                return None
+        except Exception as e:
+            rec.note("kind-behaviour-harness:%s" % type(e).__name__)
+            return None
+        T, scale = ent
+        rec.count("mon:kind-result-resolves-left-symbol")
+        data = U.unyt_quantity(1.0, res) if hasattr(res, "is_Unit") else res
+        want = np.asarray(data.d, dtype=float) * (float(u.base_value) / float(scale))
+        try:
+            got = np.asarray(data.to_value(T), dtype=float)
+        except Exception as e:
+            return ("unknown", T, "raises %s (%s)" % (type(e).__name__, str(e)[:160]), scale)
+        if got.shape == want.shape and np.allclose(got, want, rtol=1e-9, atol=0.0, equal_nan=True):
+            return ("ok", T, "", scale)
+        return ("other-value", T, "gives %r where %r is expected" % (got.tolist(), want.tolist()), scale)
+
     # ---- default registry
     def default_handles(self):
         U = self.unyt
@@ -1609,8 +1838,19 @@ class History:
         n = 3 if (self.tier != "quick" or r.random() < 0.6) else 2
         for i in range(n):
             self.create(i)
-        for _ in range(self.nsteps):
+        at, sib = set(), set()
+        if self.r2 is not None:
+            lo = min(self.nsteps - 1, self.nsteps // 3)
+            at = {self.r2.randrange(lo, self.nsteps)}
+            sib = {self.r2.randrange(self.nsteps) for _ in range(1 if self.tier == "quick" else 2)}
+        for i in range(self.nsteps):
             self.step()
+            if i in sib:
+                self.siblings_step(self.r2)
+            if i in at:
+                self.kind_matrix_step(self.r2)
+        if self.r2 is not None:
+            self.kind_matrix_step(self.r2)
 
 
 def worker(batch, rec):
@@ -1621,6 +1861,7 @@ def worker(batch, rec):
     for h in range(p["n"]):
         r = core.rng(p["seed"], bid, h)
         H = History(child, r, "%s#%d" % (bid, h), p["steps"], p["tier"])
+        H.r2 = core.rng(p["seed"], bid, h, "unit-kind-matrix")
         H.run()
         k = 40 if p["tier"] == "quick" else len(extra_syms)
         full = BASE_PROBES + [s for s in r.sample(extra_syms, k) if s not in BASE_PROBES]
@@ -1638,8 +1879,9 @@ def extra(tier, seed, results):
         for k, v in res.get("counters", {}).items():
             counters[k] = counters.get(k, 0) + v
         reached.update(res.get("reached", []))
-    missing = [m for m in SUBMONITORS if not counters.get(m)]
+    missing = [m for m in SUBMONITORS + KIND_COUNTERS if not counters.get(m)]
     if missing:
         raise core.Inconclusive("sub-monitors-never-evaluated:" + ",".join(missing))
     return {"unreached": sorted(set(KINDS) - reached), "monitor_calls": {m: counters.get(m, 0) for m in SUBMONITORS},
+            "unit_kind_matrix": {m: counters.get(m, 0) for m in KIND_COUNTERS + ["kind:behaviour-skipped"]},
             "histories": counters.get("histories", 0), "steps": counters.get("steps", 0)}
